@@ -325,10 +325,8 @@ def lifespan_app(events, startup_delay=0.0, startup="complete", shutdown="comple
     """ASGI app recording a time line; events is a list of (t, what)."""
     import time as _t
 
-    t0 = _t.monotonic()
-
     def mark(what):
-        events.append((_t.monotonic() - t0, what))
+        events.append((_t.monotonic(), what))
 
     async def sleep(d):
         import sniffio
@@ -398,10 +396,13 @@ def serve_cases(backend):
     ev = []
     sv = Served(backend, lifespan_app(ev, startup_delay=0.4))
     time.sleep(0.15)
+    t_early = time.monotonic()
     early = sv.try_connect()
     if early is not None:
         r = get(early, b"/early", timeout=1.0)
-        fail("accepted-before-startup-complete", answer=repr(r))
+        done = [t for t, w in ev if w == "startup.complete sent"]
+        if not done or t_early < done[0]:       # (a loaded machine may reach this line only after startup has completed)
+            fail("accepted-before-startup-complete", answer=repr(r))
         early.close()
     s = sv.wait_listening()
     if s is None:
